@@ -661,6 +661,10 @@ func (x *Exec) doUnOp(st *State, u *ssa.UnOp) {
 				x.nilCheck(st, u, xv.T, "pointer in load")
 			}
 			v := x.load(st, a)
+			if gl, ok := u.X.(*ssa.Global); ok && stdlibNonNil[gl.String()] {
+				st.add(Neq(v, Zero)) // assumed: nobody resets the standard library's variable
+				x.extUsed["variable "+gl.String()+" (assumed non-nil)"] = true
+			}
 			if a.Root == rElem && a.SlOff != nil && len(a.Path) == 0 {
 				// name the element through the slice-element function too (trigger for quantified facts)
 				sgetTerm(st, Select(st.heapArr(a.Key, heapSorts[a.Key]), a.Base), a.SlOff, a.SlIdx)
@@ -1270,7 +1274,11 @@ func (x *Exec) doSlice(st *State, s *ssa.Slice) {
 					return
 				}
 			}
-			r := x.freshVar("bytes", SStr)
+			hint := "bytes"
+			if a, ok := s.X.(*ssa.Alloc); ok && a.Comment == "makeslice" && s.Low == nil {
+				hint = mkBytesHint // make([]byte, constant): a slice of its own (see doMakeSlice)
+			}
+			r := x.freshVar(hint, SStr)
 			st.add(Eq(App("slen", SInt, r), Sub(hi, lo)))
 			st.regs[s] = Val{T: r}
 			return
@@ -1294,13 +1302,54 @@ func (x *Exec) substr(st *State, s, lo, hi *Term) *Term {
 	return r
 }
 
+const mkBytesHint = "mkbytes"
+
+// standard-library variables a program does not reassign
+var stdlibNonNil = map[string]bool{"io.Discard": true, "io.EOF": true, "os.Stdout": true, "os.Stderr": true}
+
+// substState replaces a variable by a term in every register, local cell and heap array of the
+// state (the path condition keeps talking about the old value).
+func (st *State) substState(name string, by *Term) {
+	m := map[string]*Term{name: by}
+	var sv func(v Val) Val
+	sv = func(v Val) Val {
+		if v.T != nil {
+			v.T = substVars(v.T, m)
+		}
+		if v.Tup != nil {
+			nt := make([]Val, len(v.Tup))
+			for i, e := range v.Tup {
+				nt[i] = sv(e)
+			}
+			v.Tup = nt
+		}
+		return v
+	}
+	for k, v := range st.regs {
+		st.regs[k] = sv(v)
+	}
+	for k, t := range st.cells {
+		if t != nil {
+			st.cells[k] = substVars(t, m)
+		}
+	}
+	for k, t := range st.heap {
+		if t != nil {
+			st.heap[k] = substVars(t, m)
+		}
+	}
+}
+
 func (x *Exec) doMakeSlice(st *State, m *ssa.MakeSlice) {
 	ln := x.term(st, x.val(st, m.Len), m.Len.Type())
 	cp := x.term(st, x.val(st, m.Cap), m.Cap.Type())
 	x.oblige(st, "mk", fmt.Sprintf("#%d", x.ordinal("mk", m)), And(Le(Zero, ln), Le(ln, cp)), m.Pos(), "make: 0 <= len <= cap")
 	if isByteSlice(m.Type()) {
+		// a byte slice is modelled by its contents; a freshly made one gets a name of its own, so
+		// that a copy into it (calls.go) can replace every view of it held by this activation
 		theU.DeclFunc("zeros", SStr, SInt)
-		r := App("zeros", SStr, ln)
+		r := x.freshVar(mkBytesHint, SStr)
+		st.add(Eq(r, App("zeros", SStr, ln)))
 		st.add(Eq(App("slen", SInt, r), ln), Eq(App("dw", SInt, r), Zero), Eq(Eq(ln, Zero), Eq(r, strEmpty)))
 		st.regs[m] = Val{T: r}
 		return
